@@ -16,6 +16,7 @@
 #include <string>
 #include <vector>
 #include <sstream>
+#include "c06_native.h"
 
 using namespace asmjit;
 
@@ -160,7 +161,7 @@ static std::string op_text(const Operand& op) {
   return "?";
 }
 
-static void cmd_S(std::vector<long>& v) {
+static void cmd_S(std::vector<long>& v, const char* native_hex = nullptr) {
   size_t pos = 0;
   int arch = int(v[pos++]), plat = int(v[pos++]), abi = int(v[pos++]), cc = int(v[pos++]), va = int(v[pos++]), n = int(v[pos++]);
   Environment env = make_env(arch, plat, abi);
@@ -225,6 +226,17 @@ static void cmd_S(std::vector<long>& v) {
     Section* text = code2.text_section();
     const uint8_t* d = text->data();
     for (size_t i = 0; i < text->buffer_size(); i++) { char hx[4]; snprintf(hx, sizeof(hx), "%02x", d[i]); bytes += hx; }
+    // X command: run the bytes on the host CPU from the given register / frame image
+    if (native_hex && arch == 1 && e2 == Error::kOk) {
+      std::vector<uint8_t> in, out(c06native::kBlob, 0);
+      c06native::parse_hex(native_hex, in);
+      if (in.size() == c06native::kBlob && c06native::host_ok()) {
+        std::vector<uint8_t> sh(d, d + text->buffer_size());
+        if (c06native::run(sh, in.data(), out.data())) bytes += " native=" + c06native::to_hex(out.data(), out.size());
+        else bytes += " native=fail";
+      }
+      else bytes += " native=unavailable";
+    }
   }
   char b[256];
   uint32_t sp_id = arch == 2 ? 31u : 4u;
@@ -256,6 +268,12 @@ int main() {
     if (c == 'T') cmd_T();
     else if (c == 'F') { if (v.size() < 7 || (v[6] <= 32 && v.size() < size_t(7 + (v[6] > 0 ? v[6] : 0)))) puts("BAD"); else cmd_F(v); }
     else if (c == 'S') { v.resize(v.size() + 400, 0); cmd_S(v); }
+    else if (c == 'X') {
+      // same integers as S, then " H<hex image>" : additionally executes the emitted code natively (x86-64 host only)
+      const char* h = strstr(buf, " H");
+      v.resize(v.size() + 400, 0);
+      cmd_S(v, h ? h + 2 : nullptr);
+    }
     else if (c == '\n' || c == '#') continue;
     else puts("BAD");
     fflush(stdout);
